@@ -20,7 +20,7 @@ TInit == /\ l = 1 /\ viol = <<>> /\ toy = FALSE /\ phase = "trace" /\ hist = <<>
          /\ stats = [cases |-> 0, steps |-> 0, accepted |-> 0, rejected |-> 0, walk_steps |-> 0, walk_short |-> 0,
                      pos |-> 0, neg |-> 0, zero |-> 0, regen_deficit |-> 0, out_deficit |-> 0, inexact |-> 0,
                      drift_agg |-> 0, drift_verdict |-> 0, drift_split |-> 0, drift_pub |-> 0, drift_ust |-> 0,
-                     toy_steps |-> 0, publish_err |-> 0, out_of_domain |-> 0]
+                     toy_steps |-> 0, publish_err |-> 0, out_of_domain |-> 0, panics |-> 0]
          /\ pol = "Proportional" /\ units = <<>> /\ ust = <<>> /\ kind = <<>> /\ rat = <<>> /\ pub = <<>> /\ rgn = <<>>
          /\ agg = [out_max |-> 0, reves |-> 0, non_reves |-> 0, regen_max |-> 0, dyn_max |-> 0, def_out |-> 0, def_regen |-> 0]
          /\ req = 0 /\ acc = FALSE /\ p = <<>> /\ mpo = <<>> /\ mdb = <<>> /\ den = 1
@@ -107,9 +107,13 @@ OutOfDomain == /\ Rec[l].ev = "OutOfDomain"
                /\ stats' = [stats EXCEPT !.out_of_domain = @ + 1]
                /\ UNCHANGED <<pol, units, toy, ust, kind, rat, pub, rgn, agg, req, acc, p, mpo, mdb, den, viol>>
 
+(* a panic / abort / timeout is not a step: reported as NoPanic (owned by no property of this group). Only *)
+(* the first 100 are listed (all are counted): the driver keeps details for a bounded number of cases.     *)
 Panic == /\ Rec[l].ev \in {"panic", "abort", "timeout"}
-         /\ Report(<<"NoPanic">>)
-         /\ UNCHANGED <<pol, units, toy, ust, kind, rat, pub, rgn, agg, req, acc, p, mpo, mdb, den, stats>>
+         /\ Report(IF stats.panics < 100 THEN <<"NoPanic">> ELSE <<>>)
+         /\ stats' = [stats EXCEPT !.panics = @ + 1]
+         /\ acc' = FALSE
+         /\ UNCHANGED <<pol, units, toy, ust, kind, rat, pub, rgn, agg, req, p, mpo, mdb, den>>
 
 End == /\ Rec[l].ev = "end"
        /\ Report(Names(<< <<"HarnessOk", Rec[l].result # "harness_err">> >>))
